@@ -957,6 +957,47 @@ func (c *specCtx) call(n *ast.CallExpr) (sv, error) {
 			return sv{}, err
 		}
 		return c.mk(types.Typ[types.UnsafePointer], "(i-tag "+v.S+")"), nil
+	case "sent", "sentval":
+		// ghost record of channel sends performed by the function under verification
+		v, err := c.eval(args[0])
+		if err != nil {
+			return sv{}, err
+		}
+		ct, ok := v.T.Underlying().(*types.Chan)
+		if !ok {
+			return sv{}, c.errf("%s: not a channel", id.Name)
+		}
+		if id.Name == "sent" {
+			return c.mk(tInt, fmt.Sprintf("(select %s %s)", e.sendCount(c.st), v.S)), nil
+		}
+		return c.mk(ct.Elem(), fmt.Sprintf("(select %s %s)", e.sendVals(c.st, ct.Elem()), v.S)), nil
+	case "max", "min":
+		a, err := c.eval(args[0])
+		if err != nil {
+			return sv{}, err
+		}
+		b, err := c.eval(args[1])
+		if err != nil {
+			return sv{}, err
+		}
+		a, b, err = c.unify(a, b)
+		if err != nil {
+			return sv{}, err
+		}
+		if a.c != nil {
+			a, _ = c.def(a)
+			b, _ = c.def(b)
+		}
+		var lt string
+		if e.mode == ModeInt {
+			lt = fmt.Sprintf("(< %s %s)", a.S, b.S)
+		} else {
+			lt = fmt.Sprintf("(bvslt %s %s)", a.S, b.S)
+		}
+		if id.Name == "max" {
+			return c.mk(a.T, ite(lt, b.S, a.S)), nil
+		}
+		return c.mk(a.T, ite(lt, a.S, b.S)), nil
 	case "haskey":
 		m, err := c.eval(args[0])
 		if err != nil {
@@ -1332,8 +1373,8 @@ func (c *specCtx) specCall(sf *specFn, args []ast.Expr) (sv, error) {
 			return sv{}, err
 		}
 		switch p {
-		case "bytes":
-			// (array, offset) view of a byte sequence
+		case "bytes", "slice":
+			// (array, offset) view of a sequence
 			switch u := v.T.Underlying().(type) {
 			case *types.Slice:
 				k, srt := e.elemKey(u.Elem())
